@@ -373,283 +373,283 @@ static int nominalOrder(const std::string& m) {
 static const std::map<std::string, double>& boundTable() {
     static const std::map<std::string, double> T = {
 /*BOUNDS-BEGIN*/
-        {"cpodes_adams.forced.inf.loose", 5.9},   // n=142 max=1.94
-        {"cpodes_adams.forced.inf.step", 0.28},   // n=284 max=0.0922
-        {"cpodes_adams.forced.inf.tight", 7.2},   // n=142 max=2.39
-        {"cpodes_adams.forced.rms.loose", 3},   // n=132 max=0.783
-        {"cpodes_adams.forced.rms.step", 0.15},   // n=264 max=0.049
-        {"cpodes_adams.forced.rms.tight", 7.4},   // n=132 max=2.44
-        {"cpodes_adams.h4", 3.6},   // n=401 max=1.19
-        {"cpodes_adams.pend.inf.loose", 180},   // n=124 max=56.9
-        {"cpodes_adams.pend.inf.step", 2.4},   // n=248 max=0.781
-        {"cpodes_adams.pend.inf.tight", 280},   // n=124 max=92.9
-        {"cpodes_adams.pend.rms.loose", 250},   // n=136 max=80
-        {"cpodes_adams.pend.rms.step", 1.8},   // n=272 max=0.594
-        {"cpodes_adams.pend.rms.tight", 260},   // n=136 max=83.9
-        {"cpodes_adams.sho.inf.loose", 57},   // n=162 max=18.7
-        {"cpodes_adams.sho.inf.step", 1.3},   // n=324 max=0.415
-        {"cpodes_adams.sho.inf.tight", 230},   // n=162 max=74
-        {"cpodes_adams.sho.rms.loose", 79},   // n=146 max=26.3
-        {"cpodes_adams.sho.rms.step", 1.3},   // n=292 max=0.43
-        {"cpodes_adams.sho.rms.tight", 240},   // n=146 max=79.2
-        {"cpodes_adams.spiral.inf.loose", 26},   // n=110 max=8.52
-        {"cpodes_adams.spiral.inf.step", 0.43},   // n=220 max=0.142
-        {"cpodes_adams.spiral.inf.tight", 49},   // n=110 max=16.3
-        {"cpodes_adams.spiral.rms.loose", 21},   // n=174 max=6.78
-        {"cpodes_adams.spiral.rms.step", 0.43},   // n=348 max=0.141
-        {"cpodes_adams.spiral.rms.tight", 88},   // n=174 max=29.2
-        {"cpodes_adams.stiffish.inf.loose", 3},   // n=130 max=0.629
-        {"cpodes_adams.stiffish.inf.step", 0.1},   // n=260 max=0.0104
-        {"cpodes_adams.stiffish.inf.tight", 4.4},   // n=130 max=1.45
-        {"cpodes_adams.stiffish.rms.loose", 3},   // n=164 max=0.602
-        {"cpodes_adams.stiffish.rms.step", 0.1},   // n=328 max=0.00817
-        {"cpodes_adams.stiffish.rms.tight", 3.6},   // n=164 max=1.17
-        {"cpodes_bdf.forced.inf.loose", 42},   // n=128 max=14
-        {"cpodes_bdf.forced.inf.step", 1},   // n=256 max=0.333
-        {"cpodes_bdf.forced.inf.tight", 47},   // n=128 max=15.4
-        {"cpodes_bdf.forced.rms.loose", 16},   // n=132 max=5.18
-        {"cpodes_bdf.forced.rms.step", 0.78},   // n=264 max=0.259
-        {"cpodes_bdf.forced.rms.tight", 46},   // n=132 max=15.3
-        {"cpodes_bdf.h4", 3.7},   // n=445 max=1.22
-        {"cpodes_bdf.pend.inf.loose", 340},   // n=108 max=111
-        {"cpodes_bdf.pend.inf.step", 4.6},   // n=216 max=1.5
-        {"cpodes_bdf.pend.inf.tight", 1500},   // n=108 max=498
-        {"cpodes_bdf.pend.rms.loose", 180},   // n=124 max=57.9
-        {"cpodes_bdf.pend.rms.step", 5.4},   // n=248 max=1.78
-        {"cpodes_bdf.pend.rms.tight", 700},   // n=124 max=231
-        {"cpodes_bdf.sho.inf.loose", 450},   // n=134 max=150
-        {"cpodes_bdf.sho.inf.step", 2.3},   // n=268 max=0.736
-        {"cpodes_bdf.sho.inf.tight", 760},   // n=134 max=250
-        {"cpodes_bdf.sho.rms.loose", 230},   // n=122 max=74.1
-        {"cpodes_bdf.sho.rms.step", 2.3},   // n=244 max=0.766
-        {"cpodes_bdf.sho.rms.tight", 590},   // n=122 max=196
-        {"cpodes_bdf.spiral.inf.loose", 57},   // n=136 max=18.8
-        {"cpodes_bdf.spiral.inf.step", 1.2},   // n=272 max=0.396
-        {"cpodes_bdf.spiral.inf.tight", 450},   // n=136 max=150
-        {"cpodes_bdf.spiral.rms.loose", 160},   // n=122 max=51.7
-        {"cpodes_bdf.spiral.rms.step", 1.5},   // n=244 max=0.488
-        {"cpodes_bdf.spiral.rms.tight", 220},   // n=122 max=70.3
-        {"cpodes_bdf.stiffish.inf.loose", 9.6},   // n=118 max=3.19
-        {"cpodes_bdf.stiffish.inf.step", 0.13},   // n=236 max=0.0409
-        {"cpodes_bdf.stiffish.inf.tight", 20},   // n=118 max=6.45
-        {"cpodes_bdf.stiffish.rms.loose", 9.7},   // n=134 max=3.22
-        {"cpodes_bdf.stiffish.rms.step", 0.11},   // n=268 max=0.0358
-        {"cpodes_bdf.stiffish.rms.tight", 16},   // n=134 max=5.3
-        {"euler.forced.inf.loose", 680},   // n=134 max=227
-        {"euler.forced.inf.step", 1.3},   // n=267 max=0.416
-        {"euler.forced.inf.tight", 68000},   // n=133 max=2.24e+04
-        {"euler.forced.rms.loose", 620},   // n=134 max=205
-        {"euler.forced.rms.step", 1.2},   // n=268 max=0.382
-        {"euler.forced.rms.tight", 62000},   // n=134 max=2.04e+04
-        {"euler.pend.inf.loose", 21000},   // n=134 max=6.91e+03
-        {"euler.pend.inf.step", 14},   // n=268 max=4.55
-        {"euler.pend.inf.tight", 2.1e+06},   // n=134 max=6.85e+05
-        {"euler.pend.rms.loose", 27000},   // n=144 max=8.68e+03
-        {"euler.pend.rms.step", 14},   // n=287 max=4.53
-        {"euler.pend.rms.tight", 2.6e+06},   // n=143 max=8.5e+05
-        {"euler.sho.inf.loose", 9400},   // n=134 max=3.12e+03
-        {"euler.sho.inf.step", 3.9},   // n=267 max=1.29
-        {"euler.sho.inf.tight", 930000},   // n=133 max=3.08e+05
-        {"euler.sho.rms.loose", 9400},   // n=128 max=3.1e+03
-        {"euler.sho.rms.step", 3.9},   // n=255 max=1.29
-        {"euler.sho.rms.tight", 920000},   // n=127 max=3.05e+05
-        {"euler.spiral.inf.loose", 5000},   // n=148 max=1.66e+03
-        {"euler.spiral.inf.step", 2.6},   // n=294 max=0.86
-        {"euler.spiral.inf.tight", 500000},   // n=146 max=1.64e+05
-        {"euler.spiral.rms.loose", 6400},   // n=124 max=2.12e+03
-        {"euler.spiral.rms.step", 3.4},   // n=247 max=1.12
-        {"euler.spiral.rms.tight", 630000},   // n=123 max=2.1e+05
-        {"euler.stiffish.inf.loose", 310},   // n=144 max=100
-        {"euler.stiffish.inf.step", 0.57},   // n=288 max=0.188
-        {"euler.stiffish.inf.tight", 31000},   // n=144 max=1.01e+04
-        {"euler.stiffish.rms.loose", 390},   // n=128 max=127
-        {"euler.stiffish.rms.step", 0.76},   // n=255 max=0.252
-        {"euler.stiffish.rms.tight", 39000},   // n=127 max=1.27e+04
-        {"merson.forced.inf.loose", 12},   // n=104 max=3.8
-        {"merson.forced.inf.step", 2},   // n=208 max=0.634
-        {"merson.forced.inf.tight", 9.6},   // n=104 max=3.19
-        {"merson.forced.rms.loose", 12},   // n=132 max=3.7
-        {"merson.forced.rms.step", 1.2},   // n=264 max=0.37
-        {"merson.forced.rms.tight", 8.1},   // n=132 max=2.69
-        {"merson.h4", 6.4},   // n=448 max=2.11
-        {"merson.pend.inf.loose", 61},   // n=120 max=20.1
-        {"merson.pend.inf.step", 3},   // n=240 max=0.993
-        {"merson.pend.inf.tight", 90},   // n=120 max=29.9
-        {"merson.pend.rms.loose", 64},   // n=142 max=21.3
-        {"merson.pend.rms.step", 3.5},   // n=284 max=1.14
-        {"merson.pend.rms.tight", 68},   // n=142 max=22.6
-        {"merson.sho.inf.loose", 140},   // n=120 max=44.5
-        {"merson.sho.inf.step", 3.7},   // n=240 max=1.22
-        {"merson.sho.inf.tight", 820},   // n=120 max=272
-        {"merson.sho.rms.loose", 170},   // n=150 max=56.6
-        {"merson.sho.rms.step", 4.1},   // n=300 max=1.35
-        {"merson.sho.rms.tight", 970},   // n=150 max=322
-        {"merson.spiral.inf.loose", 54},   // n=142 max=18
-        {"merson.spiral.inf.step", 1.7},   // n=284 max=0.542
-        {"merson.spiral.inf.tight", 310},   // n=142 max=101
-        {"merson.spiral.rms.loose", 42},   // n=128 max=13.9
-        {"merson.spiral.rms.step", 1.8},   // n=256 max=0.595
-        {"merson.spiral.rms.tight", 260},   // n=128 max=84.8
-        {"merson.stiffish.inf.loose", 28},   // n=128 max=9.02
-        {"merson.stiffish.inf.step", 2},   // n=256 max=0.645
-        {"merson.stiffish.inf.tight", 81},   // n=128 max=26.9
-        {"merson.stiffish.rms.loose", 23},   // n=124 max=7.49
-        {"merson.stiffish.rms.step", 1.8},   // n=248 max=0.578
-        {"merson.stiffish.rms.tight", 89},   // n=124 max=29.5
-        {"rk2.forced.inf.loose", 3},   // n=158 max=0.823
-        {"rk2.forced.inf.step", 0.1},   // n=316 max=0.031
-        {"rk2.forced.inf.tight", 4.3},   // n=158 max=1.43
-        {"rk2.forced.rms.loose", 3},   // n=116 max=0.758
-        {"rk2.forced.rms.step", 0.1},   // n=232 max=0.027
-        {"rk2.forced.rms.tight", 4.3},   // n=116 max=1.4
-        {"rk2.h4", 3.1},   // n=444 max=1.02
-        {"rk2.pend.inf.loose", 16},   // n=152 max=5.2
-        {"rk2.pend.inf.step", 0.23},   // n=304 max=0.0743
-        {"rk2.pend.inf.tight", 16},   // n=152 max=5.05
-        {"rk2.pend.rms.loose", 16},   // n=174 max=5.1
-        {"rk2.pend.rms.step", 0.2},   // n=348 max=0.0662
-        {"rk2.pend.rms.tight", 16},   // n=174 max=5.11
-        {"rk2.sho.inf.loose", 38},   // n=136 max=12.5
-        {"rk2.sho.inf.step", 0.31},   // n=272 max=0.103
-        {"rk2.sho.inf.tight", 38},   // n=136 max=12.5
-        {"rk2.sho.rms.loose", 28},   // n=102 max=9.25
-        {"rk2.sho.rms.step", 0.22},   // n=204 max=0.0706
-        {"rk2.sho.rms.tight", 28},   // n=102 max=9.26
-        {"rk2.spiral.inf.loose", 6.5},   // n=118 max=2.15
-        {"rk2.spiral.inf.step", 0.1},   // n=236 max=0.0299
-        {"rk2.spiral.inf.tight", 6.4},   // n=118 max=2.11
-        {"rk2.spiral.rms.loose", 8.2},   // n=162 max=2.72
-        {"rk2.spiral.rms.step", 0.12},   // n=324 max=0.0396
-        {"rk2.spiral.rms.tight", 8.2},   // n=162 max=2.71
-        {"rk2.stiffish.inf.loose", 3},   // n=136 max=0.61
-        {"rk2.stiffish.inf.step", 0.1},   // n=272 max=0.0193
-        {"rk2.stiffish.inf.tight", 3},   // n=136 max=0.227
-        {"rk2.stiffish.rms.loose", 3},   // n=150 max=0.829
-        {"rk2.stiffish.rms.step", 0.1},   // n=300 max=0.0316
-        {"rk2.stiffish.rms.tight", 3},   // n=150 max=0.32
-        {"rk3.forced.inf.loose", 3},   // n=154 max=0.335
-        {"rk3.forced.inf.step", 0.12},   // n=308 max=0.0372
-        {"rk3.forced.inf.tight", 3},   // n=154 max=0.484
-        {"rk3.forced.rms.loose", 3},   // n=132 max=0.317
-        {"rk3.forced.rms.step", 0.13},   // n=264 max=0.0408
-        {"rk3.forced.rms.tight", 3},   // n=132 max=0.467
-        {"rk3.h4", 3.3},   // n=446 max=1.08
-        {"rk3.pend.inf.loose", 64},   // n=158 max=21.1
-        {"rk3.pend.inf.step", 0.83},   // n=316 max=0.274
-        {"rk3.pend.inf.tight", 68},   // n=158 max=22.5
-        {"rk3.pend.rms.loose", 48},   // n=126 max=15.9
-        {"rk3.pend.rms.step", 0.58},   // n=252 max=0.192
-        {"rk3.pend.rms.tight", 51},   // n=126 max=16.8
-        {"rk3.sho.inf.loose", 12},   // n=120 max=3.71
-        {"rk3.sho.inf.step", 0.25},   // n=240 max=0.0821
-        {"rk3.sho.inf.tight", 12},   // n=120 max=3.71
-        {"rk3.sho.rms.loose", 8.4},   // n=136 max=2.77
-        {"rk3.sho.rms.step", 0.26},   // n=272 max=0.0856
-        {"rk3.sho.rms.tight", 8.3},   // n=136 max=2.75
-        {"rk3.spiral.inf.loose", 5.2},   // n=112 max=1.73
-        {"rk3.spiral.inf.step", 0.15},   // n=224 max=0.0478
-        {"rk3.spiral.inf.tight", 5.6},   // n=112 max=1.85
-        {"rk3.spiral.rms.loose", 7.6},   // n=146 max=2.51
-        {"rk3.spiral.rms.step", 0.15},   // n=292 max=0.0474
-        {"rk3.spiral.rms.tight", 7.7},   // n=146 max=2.53
-        {"rk3.stiffish.inf.loose", 3.9},   // n=146 max=1.28
-        {"rk3.stiffish.inf.step", 0.16},   // n=292 max=0.0533
-        {"rk3.stiffish.inf.tight", 3},   // n=146 max=0.142
-        {"rk3.stiffish.rms.loose", 4.9},   // n=140 max=1.62
-        {"rk3.stiffish.rms.step", 0.16},   // n=280 max=0.0531
-        {"rk3.stiffish.rms.tight", 3},   // n=140 max=0.201
-        {"rkf.forced.inf.loose", 49},   // n=138 max=16.1
-        {"rkf.forced.inf.step", 15},   // n=276 max=4.77
-        {"rkf.forced.inf.tight", 490},   // n=138 max=162
-        {"rkf.forced.rms.loose", 44},   // n=124 max=14.4
-        {"rkf.forced.rms.step", 18},   // n=248 max=5.77
-        {"rkf.forced.rms.tight", 850},   // n=124 max=283
-        {"rkf.h4", 5.5},   // n=438 max=1.82
-        {"rkf.pend.inf.loose", 160},   // n=136 max=52.8
-        {"rkf.pend.inf.step", 18},   // n=272 max=5.93
-        {"rkf.pend.inf.tight", 1400},   // n=136 max=462
-        {"rkf.pend.rms.loose", 230},   // n=142 max=76.3
-        {"rkf.pend.rms.step", 23},   // n=284 max=7.63
-        {"rkf.pend.rms.tight", 1200},   // n=142 max=392
-        {"rkf.sho.inf.loose", 150},   // n=130 max=49.6
-        {"rkf.sho.inf.step", 4.1},   // n=260 max=1.34
-        {"rkf.sho.inf.tight", 960},   // n=130 max=317
-        {"rkf.sho.rms.loose", 130},   // n=130 max=40.4
-        {"rkf.sho.rms.step", 4},   // n=260 max=1.33
-        {"rkf.sho.rms.tight", 1100},   // n=130 max=347
-        {"rkf.spiral.inf.loose", 44},   // n=126 max=14.5
-        {"rkf.spiral.inf.step", 2.2},   // n=252 max=0.732
-        {"rkf.spiral.inf.tight", 240},   // n=126 max=78
-        {"rkf.spiral.rms.loose", 33},   // n=126 max=10.8
-        {"rkf.spiral.rms.step", 2.1},   // n=252 max=0.672
-        {"rkf.spiral.rms.tight", 210},   // n=126 max=68.6
-        {"rkf.stiffish.inf.loose", 8.6},   // n=140 max=2.84
-        {"rkf.stiffish.inf.step", 0.78},   // n=280 max=0.259
-        {"rkf.stiffish.inf.tight", 87},   // n=140 max=28.8
-        {"rkf.stiffish.rms.loose", 8.1},   // n=118 max=2.7
-        {"rkf.stiffish.rms.step", 1.1},   // n=236 max=0.341
-        {"rkf.stiffish.rms.tight", 99},   // n=118 max=32.8
-        {"see2.forced.inf.loose", 450},   // n=124 max=150
-        {"see2.forced.inf.step", 1.3},   // n=247 max=0.417
-        {"see2.forced.inf.tight", 45000},   // n=123 max=1.5e+04
-        {"see2.forced.rms.loose", 500},   // n=120 max=165
-        {"see2.forced.rms.step", 1.2},   // n=237 max=0.386
-        {"see2.forced.rms.tight", 49000},   // n=117 max=1.63e+04
-        {"see2.pend.inf.loose", 1400},   // n=114 max=445
-        {"see2.pend.inf.step", 1.1},   // n=228 max=0.366
-        {"see2.pend.inf.tight", 140000},   // n=114 max=4.43e+04
-        {"see2.pend.rms.loose", 500},   // n=152 max=165
-        {"see2.pend.rms.step", 1.4},   // n=303 max=0.452
-        {"see2.pend.rms.tight", 50000},   // n=151 max=1.65e+04
-        {"see2.sho.inf.loose", 590},   // n=148 max=194
-        {"see2.sho.inf.step", 0.8},   // n=295 max=0.266
-        {"see2.sho.inf.tight", 59000},   // n=147 max=1.94e+04
-        {"see2.sho.rms.loose", 560},   // n=132 max=186
-        {"see2.sho.rms.step", 1.5},   // n=263 max=0.491
-        {"see2.sho.rms.tight", 56000},   // n=131 max=1.85e+04
-        {"see2.spiral.inf.loose", 2500},   // n=154 max=833
-        {"see2.spiral.inf.step", 2.7},   // n=308 max=0.878
-        {"see2.spiral.inf.tight", 260000},   // n=154 max=8.35e+04
-        {"see2.spiral.rms.loose", 5500},   // n=150 max=1.83e+03
-        {"see2.spiral.rms.step", 3.3},   // n=298 max=1.09
-        {"see2.spiral.rms.tight", 550000},   // n=148 max=1.82e+05
-        {"see2.stiffish.inf.loose", 230},   // n=148 max=74.2
-        {"see2.stiffish.inf.step", 0.53},   // n=291 max=0.174
-        {"see2.stiffish.inf.tight", 23000},   // n=143 max=7.51e+03
-        {"see2.stiffish.rms.loose", 260},   // n=148 max=86.3
-        {"see2.stiffish.rms.step", 0.69},   // n=294 max=0.229
-        {"see2.stiffish.rms.tight", 27000},   // n=146 max=8.71e+03
-        {"verlet.forced.inf.loose", 40},   // n=146 max=13.1
-        {"verlet.forced.inf.step", 0.72},   // n=292 max=0.238
-        {"verlet.forced.inf.tight", 1200},   // n=146 max=367
-        {"verlet.forced.rms.loose", 39},   // n=140 max=12.9
-        {"verlet.forced.rms.step", 0.64},   // n=280 max=0.211
-        {"verlet.forced.rms.tight", 1200},   // n=140 max=375
-        {"verlet.h4", 3.5},   // n=438 max=1.14
-        {"verlet.pend.inf.loose", 200},   // n=146 max=63.8
-        {"verlet.pend.inf.step", 1.1},   // n=292 max=0.348
-        {"verlet.pend.inf.tight", 3600},   // n=146 max=1.19e+03
-        {"verlet.pend.rms.loose", 260},   // n=138 max=84.6
-        {"verlet.pend.rms.step", 1.2},   // n=276 max=0.368
-        {"verlet.pend.rms.tight", 4200},   // n=138 max=1.38e+03
-        {"verlet.sho.inf.loose", 390},   // n=142 max=129
-        {"verlet.sho.inf.step", 1.1},   // n=284 max=0.338
-        {"verlet.sho.inf.tight", 5500},   // n=142 max=1.82e+03
-        {"verlet.sho.rms.loose", 270},   // n=132 max=88.6
-        {"verlet.sho.rms.step", 1.2},   // n=264 max=0.39
-        {"verlet.sho.rms.tight", 4000},   // n=132 max=1.31e+03
-        {"verlet.spiral.inf.loose", 180},   // n=146 max=59
-        {"verlet.spiral.inf.step", 0.63},   // n=292 max=0.207
-        {"verlet.spiral.inf.tight", 3900},   // n=146 max=1.27e+03
-        {"verlet.spiral.rms.loose", 180},   // n=140 max=57
-        {"verlet.spiral.rms.step", 0.74},   // n=280 max=0.246
-        {"verlet.spiral.rms.tight", 3700},   // n=140 max=1.23e+03
-        {"verlet.stiffish.inf.loose", 62},   // n=148 max=20.3
-        {"verlet.stiffish.inf.step", 0.93},   // n=296 max=0.307
-        {"verlet.stiffish.inf.tight", 1400},   // n=148 max=448
-        {"verlet.stiffish.rms.loose", 64},   // n=156 max=21.3
-        {"verlet.stiffish.rms.step", 1.2},   // n=312 max=0.398
-        {"verlet.stiffish.rms.tight", 1500},   // n=156 max=497
+        {"cpodes_adams.forced.inf.loose", 3},   // n=100 max=0.719
+        {"cpodes_adams.forced.inf.step", 0.14},   // n=200 max=0.0462
+        {"cpodes_adams.forced.inf.tight", 7.2},   // n=100 max=2.39
+        {"cpodes_adams.forced.rms.loose", 3},   // n=96 max=0.783
+        {"cpodes_adams.forced.rms.step", 0.15},   // n=192 max=0.049
+        {"cpodes_adams.forced.rms.tight", 7.4},   // n=96 max=2.44
+        {"cpodes_adams.h4", 3.5},   // n=370 max=1.16
+        {"cpodes_adams.pend.inf.loose", 230},   // n=118 max=74.2
+        {"cpodes_adams.pend.inf.step", 2},   // n=236 max=0.639
+        {"cpodes_adams.pend.inf.tight", 340},   // n=118 max=112
+        {"cpodes_adams.pend.rms.loose", 230},   // n=104 max=76.3
+        {"cpodes_adams.pend.rms.step", 2.1},   // n=208 max=0.688
+        {"cpodes_adams.pend.rms.tight", 210},   // n=104 max=67
+        {"cpodes_adams.sho.inf.loose", 38},   // n=112 max=12.5
+        {"cpodes_adams.sho.inf.step", 1.1},   // n=224 max=0.344
+        {"cpodes_adams.sho.inf.tight", 230},   // n=112 max=74
+        {"cpodes_adams.sho.rms.loose", 56},   // n=98 max=18.4
+        {"cpodes_adams.sho.rms.step", 1.1},   // n=196 max=0.359
+        {"cpodes_adams.sho.rms.tight", 210},   // n=98 max=67.5
+        {"cpodes_adams.spiral.inf.loose", 26},   // n=100 max=8.52
+        {"cpodes_adams.spiral.inf.step", 0.43},   // n=200 max=0.142
+        {"cpodes_adams.spiral.inf.tight", 48},   // n=100 max=15.8
+        {"cpodes_adams.spiral.rms.loose", 26},   // n=144 max=8.48
+        {"cpodes_adams.spiral.rms.step", 0.43},   // n=288 max=0.141
+        {"cpodes_adams.spiral.rms.tight", 88},   // n=144 max=29.2
+        {"cpodes_adams.stiffish.inf.loose", 3},   // n=136 max=0.629
+        {"cpodes_adams.stiffish.inf.step", 0.1},   // n=272 max=0.00598
+        {"cpodes_adams.stiffish.inf.tight", 4.2},   // n=136 max=1.37
+        {"cpodes_adams.stiffish.rms.loose", 3},   // n=132 max=0.482
+        {"cpodes_adams.stiffish.rms.step", 0.1},   // n=264 max=0.0102
+        {"cpodes_adams.stiffish.rms.tight", 5.2},   // n=132 max=1.71
+        {"cpodes_bdf.forced.inf.loose", 42},   // n=98 max=14
+        {"cpodes_bdf.forced.inf.step", 1},   // n=196 max=0.333
+        {"cpodes_bdf.forced.inf.tight", 47},   // n=98 max=15.4
+        {"cpodes_bdf.forced.rms.loose", 19},   // n=102 max=6.31
+        {"cpodes_bdf.forced.rms.step", 0.45},   // n=204 max=0.149
+        {"cpodes_bdf.forced.rms.tight", 38},   // n=102 max=12.5
+        {"cpodes_bdf.h4", 3.7},   // n=369 max=1.22
+        {"cpodes_bdf.pend.inf.loose", 270},   // n=104 max=87.7
+        {"cpodes_bdf.pend.inf.step", 2.6},   // n=208 max=0.834
+        {"cpodes_bdf.pend.inf.tight", 300},   // n=104 max=99.8
+        {"cpodes_bdf.pend.rms.loose", 390},   // n=122 max=129
+        {"cpodes_bdf.pend.rms.step", 2.8},   // n=244 max=0.917
+        {"cpodes_bdf.pend.rms.tight", 410},   // n=122 max=134
+        {"cpodes_bdf.sho.inf.loose", 190},   // n=108 max=61
+        {"cpodes_bdf.sho.inf.step", 1.5},   // n=216 max=0.499
+        {"cpodes_bdf.sho.inf.tight", 470},   // n=108 max=153
+        {"cpodes_bdf.sho.rms.loose", 220},   // n=106 max=71.6
+        {"cpodes_bdf.sho.rms.step", 1.9},   // n=212 max=0.622
+        {"cpodes_bdf.sho.rms.tight", 500},   // n=106 max=166
+        {"cpodes_bdf.spiral.inf.loose", 44},   // n=134 max=14.5
+        {"cpodes_bdf.spiral.inf.step", 1.1},   // n=268 max=0.336
+        {"cpodes_bdf.spiral.inf.tight", 310},   // n=134 max=101
+        {"cpodes_bdf.spiral.rms.loose", 160},   // n=86 max=51.7
+        {"cpodes_bdf.spiral.rms.step", 1.5},   // n=172 max=0.488
+        {"cpodes_bdf.spiral.rms.tight", 220},   // n=86 max=70.3
+        {"cpodes_bdf.stiffish.inf.loose", 9},   // n=116 max=2.99
+        {"cpodes_bdf.stiffish.inf.step", 0.11},   // n=232 max=0.0336
+        {"cpodes_bdf.stiffish.inf.tight", 18},   // n=116 max=5.84
+        {"cpodes_bdf.stiffish.rms.loose", 8.2},   // n=94 max=2.72
+        {"cpodes_bdf.stiffish.rms.step", 0.1},   // n=188 max=0.0302
+        {"cpodes_bdf.stiffish.rms.tight", 15},   // n=94 max=4.7
+        {"euler.forced.inf.loose", 680},   // n=118 max=227
+        {"euler.forced.inf.step", 1.3},   // n=235 max=0.416
+        {"euler.forced.inf.tight", 68000},   // n=117 max=2.24e+04
+        {"euler.forced.rms.loose", 590},   // n=112 max=196
+        {"euler.forced.rms.step", 1.2},   // n=224 max=0.382
+        {"euler.forced.rms.tight", 59000},   // n=112 max=1.96e+04
+        {"euler.pend.inf.loose", 35000},   // n=122 max=1.14e+04
+        {"euler.pend.inf.step", 15},   // n=244 max=4.73
+        {"euler.pend.inf.tight", 3.4e+06},   // n=122 max=1.13e+06
+        {"euler.pend.rms.loose", 28000},   // n=124 max=9.13e+03
+        {"euler.pend.rms.step", 15},   // n=247 max=4.99
+        {"euler.pend.rms.tight", 2.8e+06},   // n=123 max=9.03e+05
+        {"euler.sho.inf.loose", 8900},   // n=108 max=2.95e+03
+        {"euler.sho.inf.step", 3.4},   // n=214 max=1.12
+        {"euler.sho.inf.tight", 880000},   // n=106 max=2.93e+05
+        {"euler.sho.rms.loose", 9400},   // n=98 max=3.1e+03
+        {"euler.sho.rms.step", 4.4},   // n=194 max=1.45
+        {"euler.sho.rms.tight", 920000},   // n=96 max=3.05e+05
+        {"euler.spiral.inf.loose", 4700},   // n=106 max=1.55e+03
+        {"euler.spiral.inf.step", 2.5},   // n=210 max=0.806
+        {"euler.spiral.inf.tight", 470000},   // n=104 max=1.54e+05
+        {"euler.spiral.rms.loose", 6300},   // n=116 max=2.07e+03
+        {"euler.spiral.rms.step", 3.3},   // n=231 max=1.09
+        {"euler.spiral.rms.tight", 620000},   // n=115 max=2.05e+05
+        {"euler.stiffish.inf.loose", 310},   // n=108 max=101
+        {"euler.stiffish.inf.step", 0.57},   // n=216 max=0.188
+        {"euler.stiffish.inf.tight", 31000},   // n=108 max=1.01e+04
+        {"euler.stiffish.rms.loose", 390},   // n=130 max=127
+        {"euler.stiffish.rms.step", 0.76},   // n=259 max=0.252
+        {"euler.stiffish.rms.tight", 39000},   // n=129 max=1.27e+04
+        {"merson.forced.inf.loose", 7.1},   // n=104 max=2.35
+        {"merson.forced.inf.step", 0.94},   // n=208 max=0.312
+        {"merson.forced.inf.tight", 6.3},   // n=104 max=2.07
+        {"merson.forced.rms.loose", 8.8},   // n=124 max=2.9
+        {"merson.forced.rms.step", 0.98},   // n=248 max=0.326
+        {"merson.forced.rms.tight", 8.1},   // n=124 max=2.69
+        {"merson.h4", 6.5},   // n=372 max=2.16
+        {"merson.pend.inf.loose", 59},   // n=114 max=19.5
+        {"merson.pend.inf.step", 5.6},   // n=228 max=1.84
+        {"merson.pend.inf.tight", 150},   // n=114 max=49.7
+        {"merson.pend.rms.loose", 63},   // n=108 max=20.9
+        {"merson.pend.rms.step", 2.7},   // n=216 max=0.869
+        {"merson.pend.rms.tight", 73},   // n=108 max=24.1
+        {"merson.sho.inf.loose", 190},   // n=112 max=63.2
+        {"merson.sho.inf.step", 4.4},   // n=224 max=1.43
+        {"merson.sho.inf.tight", 1300},   // n=112 max=404
+        {"merson.sho.rms.loose", 160},   // n=140 max=51.3
+        {"merson.sho.rms.step", 4.4},   // n=280 max=1.43
+        {"merson.sho.rms.tight", 1100},   // n=140 max=343
+        {"merson.spiral.inf.loose", 39},   // n=112 max=12.9
+        {"merson.spiral.inf.step", 1.7},   // n=224 max=0.547
+        {"merson.spiral.inf.tight", 240},   // n=112 max=78.5
+        {"merson.spiral.rms.loose", 46},   // n=110 max=15
+        {"merson.spiral.rms.step", 1.7},   // n=220 max=0.565
+        {"merson.spiral.rms.tight", 290},   // n=110 max=94.8
+        {"merson.stiffish.inf.loose", 28},   // n=118 max=9.02
+        {"merson.stiffish.inf.step", 2},   // n=236 max=0.645
+        {"merson.stiffish.inf.tight", 66},   // n=118 max=22
+        {"merson.stiffish.rms.loose", 23},   // n=104 max=7.49
+        {"merson.stiffish.rms.step", 1.2},   // n=208 max=0.374
+        {"merson.stiffish.rms.tight", 92},   // n=104 max=30.4
+        {"rk2.forced.inf.loose", 3},   // n=136 max=0.823
+        {"rk2.forced.inf.step", 0.1},   // n=272 max=0.0302
+        {"rk2.forced.inf.tight", 4.1},   // n=136 max=1.34
+        {"rk2.forced.rms.loose", 3},   // n=84 max=0.813
+        {"rk2.forced.rms.step", 0.1},   // n=168 max=0.0267
+        {"rk2.forced.rms.tight", 4.3},   // n=84 max=1.42
+        {"rk2.h4", 3.1},   // n=344 max=1.02
+        {"rk2.pend.inf.loose", 15},   // n=110 max=4.87
+        {"rk2.pend.inf.step", 0.19},   // n=220 max=0.0633
+        {"rk2.pend.inf.tight", 15},   // n=110 max=4.92
+        {"rk2.pend.rms.loose", 17},   // n=144 max=5.61
+        {"rk2.pend.rms.step", 0.22},   // n=288 max=0.0725
+        {"rk2.pend.rms.tight", 17},   // n=144 max=5.62
+        {"rk2.sho.inf.loose", 38},   // n=100 max=12.5
+        {"rk2.sho.inf.step", 0.31},   // n=200 max=0.103
+        {"rk2.sho.inf.tight", 38},   // n=100 max=12.5
+        {"rk2.sho.rms.loose", 28},   // n=90 max=9.25
+        {"rk2.sho.rms.step", 0.19},   // n=180 max=0.06
+        {"rk2.sho.rms.tight", 28},   // n=90 max=9.26
+        {"rk2.spiral.inf.loose", 6.8},   // n=98 max=2.27
+        {"rk2.spiral.inf.step", 0.1},   // n=196 max=0.0299
+        {"rk2.spiral.inf.tight", 6.9},   // n=98 max=2.27
+        {"rk2.spiral.rms.loose", 8},   // n=110 max=2.67
+        {"rk2.spiral.rms.step", 0.12},   // n=220 max=0.037
+        {"rk2.spiral.rms.tight", 8},   // n=110 max=2.67
+        {"rk2.stiffish.inf.loose", 3},   // n=144 max=0.61
+        {"rk2.stiffish.inf.step", 0.1},   // n=288 max=0.018
+        {"rk2.stiffish.inf.tight", 3},   // n=144 max=0.227
+        {"rk2.stiffish.rms.loose", 3},   // n=116 max=0.865
+        {"rk2.stiffish.rms.step", 0.1},   // n=232 max=0.0316
+        {"rk2.stiffish.rms.tight", 3},   // n=116 max=0.319
+        {"rk3.forced.inf.loose", 3},   // n=156 max=0.319
+        {"rk3.forced.inf.step", 0.11},   // n=312 max=0.0348
+        {"rk3.forced.inf.tight", 3},   // n=156 max=0.484
+        {"rk3.forced.rms.loose", 3},   // n=124 max=0.322
+        {"rk3.forced.rms.step", 0.14},   // n=248 max=0.046
+        {"rk3.forced.rms.tight", 3},   // n=124 max=0.469
+        {"rk3.h4", 3.3},   // n=431 max=1.09
+        {"rk3.pend.inf.loose", 28},   // n=110 max=9.11
+        {"rk3.pend.inf.step", 0.62},   // n=220 max=0.204
+        {"rk3.pend.inf.tight", 32},   // n=110 max=10.5
+        {"rk3.pend.rms.loose", 32},   // n=134 max=10.4
+        {"rk3.pend.rms.step", 0.43},   // n=268 max=0.143
+        {"rk3.pend.rms.tight", 33},   // n=134 max=10.8
+        {"rk3.sho.inf.loose", 11},   // n=124 max=3.6
+        {"rk3.sho.inf.step", 0.25},   // n=248 max=0.0821
+        {"rk3.sho.inf.tight", 8.2},   // n=124 max=2.7
+        {"rk3.sho.rms.loose", 6.8},   // n=88 max=2.24
+        {"rk3.sho.rms.step", 0.26},   // n=176 max=0.0856
+        {"rk3.sho.rms.tight", 6.2},   // n=88 max=2.06
+        {"rk3.spiral.inf.loose", 5.2},   // n=100 max=1.73
+        {"rk3.spiral.inf.step", 0.15},   // n=200 max=0.0478
+        {"rk3.spiral.inf.tight", 5.6},   // n=100 max=1.85
+        {"rk3.spiral.rms.loose", 4.8},   // n=114 max=1.59
+        {"rk3.spiral.rms.step", 0.14},   // n=228 max=0.0448
+        {"rk3.spiral.rms.tight", 4.8},   // n=114 max=1.57
+        {"rk3.stiffish.inf.loose", 3.9},   // n=110 max=1.28
+        {"rk3.stiffish.inf.step", 0.16},   // n=220 max=0.0533
+        {"rk3.stiffish.inf.tight", 3},   // n=110 max=0.142
+        {"rk3.stiffish.rms.loose", 4.9},   // n=90 max=1.62
+        {"rk3.stiffish.rms.step", 0.16},   // n=180 max=0.0508
+        {"rk3.stiffish.rms.tight", 3},   // n=90 max=0.2
+        {"rkf.forced.inf.loose", 36},   // n=106 max=11.8
+        {"rkf.forced.inf.step", 12},   // n=212 max=3.8
+        {"rkf.forced.inf.tight", 450},   // n=106 max=148
+        {"rkf.forced.rms.loose", 37},   // n=116 max=12.3
+        {"rkf.forced.rms.step", 18},   // n=232 max=5.68
+        {"rkf.forced.rms.tight", 690},   // n=116 max=227
+        {"rkf.h4", 5.7},   // n=429 max=1.9
+        {"rkf.pend.inf.loose", 140},   // n=100 max=45.3
+        {"rkf.pend.inf.step", 22},   // n=200 max=7.12
+        {"rkf.pend.inf.tight", 1400},   // n=100 max=438
+        {"rkf.pend.rms.loose", 150},   // n=122 max=48.5
+        {"rkf.pend.rms.step", 23},   // n=244 max=7.43
+        {"rkf.pend.rms.tight", 960},   // n=122 max=320
+        {"rkf.sho.inf.loose", 120},   // n=90 max=39.2
+        {"rkf.sho.inf.step", 3.8},   // n=180 max=1.27
+        {"rkf.sho.inf.tight", 980},   // n=90 max=324
+        {"rkf.sho.rms.loose", 110},   // n=122 max=34.6
+        {"rkf.sho.rms.step", 4},   // n=244 max=1.33
+        {"rkf.sho.rms.tight", 1100},   // n=122 max=345
+        {"rkf.spiral.inf.loose", 39},   // n=116 max=12.8
+        {"rkf.spiral.inf.step", 2.2},   // n=232 max=0.732
+        {"rkf.spiral.inf.tight", 280},   // n=116 max=90.8
+        {"rkf.spiral.rms.loose", 44},   // n=120 max=14.4
+        {"rkf.spiral.rms.step", 2.6},   // n=240 max=0.843
+        {"rkf.spiral.rms.tight", 360},   // n=120 max=120
+        {"rkf.stiffish.inf.loose", 8.6},   // n=104 max=2.84
+        {"rkf.stiffish.inf.step", 0.78},   // n=208 max=0.259
+        {"rkf.stiffish.inf.tight", 87},   // n=104 max=28.8
+        {"rkf.stiffish.rms.loose", 13},   // n=130 max=4.17
+        {"rkf.stiffish.rms.step", 1.1},   // n=260 max=0.343
+        {"rkf.stiffish.rms.tight", 99},   // n=130 max=32.8
+        {"see2.forced.inf.loose", 510},   // n=106 max=167
+        {"see2.forced.inf.step", 1.3},   // n=210 max=0.421
+        {"see2.forced.inf.tight", 51000},   // n=104 max=1.68e+04
+        {"see2.forced.rms.loose", 500},   // n=120 max=164
+        {"see2.forced.rms.step", 1.2},   // n=235 max=0.386
+        {"see2.forced.rms.tight", 50000},   // n=115 max=1.65e+04
+        {"see2.pend.inf.loose", 450},   // n=136 max=148
+        {"see2.pend.inf.step", 0.96},   // n=270 max=0.318
+        {"see2.pend.inf.tight", 45000},   // n=134 max=1.48e+04
+        {"see2.pend.rms.loose", 320},   // n=102 max=105
+        {"see2.pend.rms.step", 1.2},   // n=203 max=0.399
+        {"see2.pend.rms.tight", 32000},   // n=101 max=1.05e+04
+        {"see2.sho.inf.loose", 590},   // n=124 max=194
+        {"see2.sho.inf.step", 0.87},   // n=248 max=0.288
+        {"see2.sho.inf.tight", 59000},   // n=124 max=1.94e+04
+        {"see2.sho.rms.loose", 520},   // n=114 max=170
+        {"see2.sho.rms.step", 1.1},   // n=227 max=0.343
+        {"see2.sho.rms.tight", 51000},   // n=113 max=1.69e+04
+        {"see2.spiral.inf.loose", 2900},   // n=100 max=946
+        {"see2.spiral.inf.step", 2.1},   // n=200 max=0.683
+        {"see2.spiral.inf.tight", 290000},   // n=100 max=9.43e+04
+        {"see2.spiral.rms.loose", 5500},   // n=146 max=1.83e+03
+        {"see2.spiral.rms.step", 3},   // n=291 max=0.97
+        {"see2.spiral.rms.tight", 550000},   // n=145 max=1.82e+05
+        {"see2.stiffish.inf.loose", 230},   // n=122 max=74.2
+        {"see2.stiffish.inf.step", 0.53},   // n=239 max=0.174
+        {"see2.stiffish.inf.tight", 23000},   // n=117 max=7.51e+03
+        {"see2.stiffish.rms.loose", 260},   // n=130 max=85.7
+        {"see2.stiffish.rms.step", 0.74},   // n=259 max=0.246
+        {"see2.stiffish.rms.tight", 26000},   // n=129 max=8.66e+03
+        {"verlet.forced.inf.loose", 40},   // n=120 max=13.1
+        {"verlet.forced.inf.step", 0.72},   // n=240 max=0.238
+        {"verlet.forced.inf.tight", 1100},   // n=120 max=352
+        {"verlet.forced.rms.loose", 43},   // n=122 max=14.3
+        {"verlet.forced.rms.step", 0.66},   // n=244 max=0.218
+        {"verlet.forced.rms.tight", 1200},   // n=122 max=390
+        {"verlet.h4", 3.3},   // n=384 max=1.1
+        {"verlet.pend.inf.loose", 210},   // n=106 max=67.3
+        {"verlet.pend.inf.step", 1.2},   // n=212 max=0.388
+        {"verlet.pend.inf.tight", 3400},   // n=106 max=1.1e+03
+        {"verlet.pend.rms.loose", 250},   // n=98 max=81.1
+        {"verlet.pend.rms.step", 0.97},   // n=196 max=0.323
+        {"verlet.pend.rms.tight", 3900},   // n=98 max=1.3e+03
+        {"verlet.sho.inf.loose", 410},   // n=110 max=136
+        {"verlet.sho.inf.step", 1.2},   // n=220 max=0.376
+        {"verlet.sho.inf.tight", 6000},   // n=110 max=1.98e+03
+        {"verlet.sho.rms.loose", 300},   // n=92 max=100
+        {"verlet.sho.rms.step", 1.1},   // n=184 max=0.356
+        {"verlet.sho.rms.tight", 4000},   // n=92 max=1.31e+03
+        {"verlet.spiral.inf.loose", 180},   // n=136 max=59
+        {"verlet.spiral.inf.step", 0.6},   // n=272 max=0.199
+        {"verlet.spiral.inf.tight", 3900},   // n=136 max=1.27e+03
+        {"verlet.spiral.rms.loose", 160},   // n=122 max=50.1
+        {"verlet.spiral.rms.step", 0.74},   // n=244 max=0.246
+        {"verlet.spiral.rms.tight", 3300},   // n=122 max=1.08e+03
+        {"verlet.stiffish.inf.loose", 52},   // n=136 max=17.3
+        {"verlet.stiffish.inf.step", 0.77},   // n=272 max=0.254
+        {"verlet.stiffish.inf.tight", 1200},   // n=136 max=377
+        {"verlet.stiffish.rms.loose", 64},   // n=126 max=21.1
+        {"verlet.stiffish.rms.step", 1.2},   // n=252 max=0.398
+        {"verlet.stiffish.rms.tight", 1500},   // n=126 max=488
 /*BOUNDS-END*/
     };
     return T;
